@@ -213,6 +213,14 @@ func withPrefix(p string, keys []string) []string {
 }
 
 func checkC17(c *Case, s *Stats) error {
+	if c.Gen == "concurrent-round" {
+		for rep := 0; rep < 10; rep++ { // a replay: the outcome depends on the schedule
+			if err := concurrentFilterSizes(c.Block, s); err != nil {
+				return err
+			}
+		}
+		return nil
+	}
 	keys := c.keys()
 	n := len(keys)
 	size, sl, err := filterSize(keys)
